@@ -467,10 +467,100 @@ func invZero(W *vWorld) bool {
 	return ok
 }
 
+// I-registry: the registry is a bijection between the first Count ids and their types, and the
+// per-id flags are those computed from the type.
+func invRegistry(w *World) bool {
+	r := &w.storage.registry
+	n := len(r.Components)
+	ok := len(r.IDs) == n && len(w.storage.components) == n && len(w.storage.componentIndex) == n
+	for i := 0; i < maskTotalBits; i++ {
+		used := r.Used.Get(uint8(i))
+		ok = ok && used == (i < n)
+		if i < n {
+			tp := r.Types[i]
+			ok = ok && tp != nil && r.IDs[i] == uint8(i)
+			if tp != nil {
+				id, found := r.Components[tp]
+				ok = ok && found && int(id) == i && r.IsRelation[i] == isRelation(tp)
+			}
+		} else {
+			ok = ok && r.Types[i] == nil && !r.IsRelation[i]
+		}
+	}
+	return ok
+}
+
+// I-pool (world level): the free chain has exactly `available` distinct slots, none of which
+// sits in a table row; slots = reserved + rows + free.
+func invPoolWorld(w *World) bool {
+	s := &w.storage
+	p := &s.entityPool
+	ok := int(p.available) <= len(p.entities)-reservedEntities && p.Len() >= 0
+	cur := p.next
+	var seen [64]bool
+	for k := uint32(0); k < p.available && k < 64; k++ {
+		ok = ok && int(cur) >= reservedEntities && int(cur) < len(p.entities)
+		if int(cur) >= len(p.entities) || int(cur) >= 64 {
+			return false
+		}
+		ok = ok && !seen[cur]
+		seen[cur] = true
+		// a free slot is not alive under the generation it carries minus one, and is in no row
+		ok = ok && s.entities[cur].table == maxTableID
+		cur = p.entities[cur].id
+	}
+	return ok
+}
+
+// I-cache: every registered entry lists exactly the active tables whose archetype matches the
+// entry's filter and whose relation columns carry the entry's targets, each once.
+func invCache(w *World) bool {
+	s := &w.storage
+	c := &s.cache
+	ok := len(c.filters) == len(c.indices)
+	for pos, e := range c.filters {
+		ok = ok && e != nil
+		if e == nil {
+			continue
+		}
+		idx, found := c.indices[e.id]
+		ok = ok && found && idx == pos && e.filter != nil && e.filter.cache == e.id
+		ok = ok && len(e.tables.tables) == len(e.tables.indices)
+		for ti := range s.tables {
+			t := &s.tables[ti]
+			a := &s.archetypes[t.archetype]
+			want := !t.isFree && vSubset(&e.filter.mask, &a.mask) && (!e.filter.hasWithout || vDisjoint(&e.filter.without, &a.mask))
+			if want && len(t.relationIDs) > 0 {
+				for _, rel := range e.relations {
+					col := t.components[rel.component.id]
+					want = want && col != nil && col.target == rel.target
+				}
+			}
+			n := 0
+			for _, tid := range e.tables.tables {
+				if tid == t.id {
+					n++
+				}
+			}
+			if want {
+				ok = ok && n == 1
+			} else {
+				ok = ok && n == 0
+			}
+		}
+	}
+	return ok
+}
+
 func (W *vWorld) checkAll(tag string) {
 	vcheck(tag+"/model-agrees", vpure(func() bool { return W.agree() }))
 	vcheck(tag+"/inv-world", vpure(func() bool { return invWorld(W.w) }))
 	vcheck(tag+"/inv-relations", vpure(func() bool { return invRelations(W.w) }))
 	vcheck(tag+"/inv-zero", vpure(func() bool { return invZero(W) }))
+	vcheck(tag+"/inv-registry-pool-cache", vpure(func() bool { return invRegistry(W.w) && invPoolWorld(W.w) && invCache(W.w) }))
+	if !vLocked {
+		lk := &W.w.storage.locks
+		vcheck(tag+"/all-lock-bits-returned", lk.locks.bits == 0 && lk.bitPool.available == lk.bitPool.length)
+	}
 	vcheck(tag+"/lock-state", W.w.IsLocked() == vLocked)
 }
